@@ -144,7 +144,7 @@ def build(program) -> MCirc:
             n = Node(p, it, mc, i)
             if "sub" in it:
                 n.sub = mk(it["sub"], p, n)
-            elif it.get("rel"):
+            elif it.get("rel") and it["rel"][1] >= 0:
                 n.rel_type = it["rel"][0]
                 n.ref = mc.nodes[it["rel"][1]]
                 n.explicit = True
